@@ -242,7 +242,8 @@ register(RelGroup('mirror_spike.B', SPK, [Relation('mirror', tr_mirror, rel_spik
 register(RelGroup('mirror_sync.B', SYNC, [Relation('mirror', tr_mirror, rel_disc_mirror(1))], sizes(0, 2), sizes(0, 3), _BT))
 register(RelGroup('mirror_order.B', ORD, [Relation('mirror', tr_mirror, rel_disc_mirror(-1))], _NZ(2), _NZ(3), _BT))
 _AFF = [Relation('shift_scale_x2', tr_affine(2), rel_affine(2)), Relation('shift_scale_x1/4', tr_affine(Fraction(1, 4)), rel_affine(Fraction(1, 4)))]
-register(RelGroup('affine_isi.B', ISI, _AFF, sizes(1, 2), sizes(1, 3), _BT + '; scale factors 2 and 1/4, shift symbolic'))
+register(RelGroup('affine_isi.B', ISI, _AFF, sizes(1, 2), sizes(1, 3), _BT + '; scale factors 2 and 1/4, shift symbolic; goals the solvers leave undecided within 1.5 s are reported, not counted (the scale invariance of the ISI ratio is lemma ratio_scale_invariant)',
+                  allow_open=('shift_scale_x2', 'shift_scale_x1/4')))
 register(RelGroup('affine_spike.B', SPK, _AFF, SPK_Q, SPK_T, _BS + '; scale factors 2 and 1/4, shift symbolic', allow_open=('shift_scale_x2', 'shift_scale_x1/4')))
 register(RelGroup('affine_sync.B', SYNC, _AFF, sizes(0, 2), sizes(0, 3), _BT + '; scale factors 2 and 1/4, shift symbolic'))
 register(RelGroup('affine_order.B', ORD, _AFF, sizes(0, 2), sizes(0, 3), _BT + '; scale factors 2 and 1/4, shift symbolic'))
